@@ -17,9 +17,22 @@ from .. import core, gallina as G
 PID = 'C12'
 ANCHORS = ['lib/python/treadmill/eventmgr.py', 'lib/python/treadmill/fs/__init__.py',
            'lib/python/treadmill/zkutils.py']
-PREAMBLE = ('From Coq Require Import ZArith List String.\nImport ListNotations.\n'
-            'From TM Require Import Node.Fs Node.Cache Node.CacheCfg Gen.Tables.\nOpen Scope Z_scope.\n')
 RUN_FN = '(run_case c12_cfg)'
+
+
+def preamble():
+    """The cases files take the source-derived constants straight from the translator (same function that
+    writes Gen/Tables.v) instead of importing Gen/Tables.vo: that file is shared with the other properties and
+    may be rebuilt by a concurrent check while the shards are being evaluated."""
+    from .. import tables, tables_c12
+    try:
+        f = tables_c12.c12_facts()
+    except tables.TranslatorError:
+        f = {'pre': '.', 'post': '-', 'ready': READY}      # reported as a broken tables section by standard_run
+    return ('From Coq Require Import ZArith List String.\nImport ListNotations.\n'
+            'From TM Require Import Node.Fs Node.Cache.\nOpen Scope Z_scope.\n'
+            'Definition c12_cfg : cfg := {| c_pre := %s; c_post := %s; c_ready := %s |}.\n'
+            % (G.string(f['pre']), G.string(f['post']), G.string(f['ready'])))
 READY = '.ready'
 POINTS = ['create', 'dump', 'chmod', 'replace', 'unlink']
 POINT_K = {'create': 0, 'dump': 2, 'chmod': 2, 'replace': 4, 'unlink': 5}
@@ -597,8 +610,8 @@ ASSUMPTIONS = [
 
 def run(tier, seed):
     core.standard_run(PID, tier, seed, {
-        'model_vos': ['Node/Fs', 'Node/Cache', 'Node/CacheCfg', 'Gen/Tables'], 'table_sections': ['c12'],
-        'preamble': PREAMBLE, 'run_fn': RUN_FN, 'in_type': 'case',
+        'model_vos': ['Node/Fs', 'Node/Cache'], 'table_sections': ['c12'],
+        'preamble': preamble(), 'run_fn': RUN_FN, 'in_type': 'case',
         'gen_case': gen_case, 'impl_run': impl_run, 'expected': expected, 'case_term': case_term,
         'oracle': oracle, 'nontrivial': nontrivial,
         'n_quick': 700, 'n_thorough': 20000, 'search_quick': 3000, 'search_thorough': 60000,
